@@ -207,7 +207,7 @@ def apply_real(net, op):
     elif op == "rm:first":
         net.remove_reaction(0)
     elif op == "rm:last":
-        net.remove_reaction(len(net.reaction_list) - 1)
+        net.remove_reaction(-1)  # counted from the end, as the list the index refers to allows
     elif op == "rm:list01":
         net.remove_reaction([0, 1])
     elif op == "rm:list101":
